@@ -39,8 +39,8 @@ def BOUNDS(ctx):
             "head_assignments": "all (HD encoding)",
             "nk_encoding_sample_p": 0.15 if ctx.quick else 0.1,
             "preset_categories_shapes_n": 4 if ctx.quick else 5,
-            "preset_categories_sampled_n": 5 if ctx.quick else 6,
-            "preset_categories_sample_k": 3 if ctx.quick else 2,
+            "preset_categories_sampled_n": 5,
+            "preset_categories_sample_k": 3 if ctx.quick else 0,
             "random_trees": 150 if ctx.quick else 2500, "random_max_n": 10}
 
 
